@@ -25,3 +25,28 @@ def pn_eval(ctx, items):
         conv = [(not deep) or common.close(o, h, 1e-12, 1e-15) for o, h in zip(vals, half)]
         out.append((vals, conv, deep))
     return out
+
+
+def tpn_eval(ctx, items):
+    """items: list of (fst desc, R, pairs) -> list of (vals, converged flags, deep?)
+    `TPN T n x y` = accepting paths with ≤ n arcs reading x and writing y (`TPNtab_spec`)."""
+    ops, deepflags = [], []
+    for d, R, pairs in items:
+        ns = len(gen.fst_states(d)) + 1
+        ml = max([len(x) + len(y) for x, y in pairs] + [0]) + 1
+        if R in ("Boolean", "MaxTimes") or gen.fst_eps_acyclic(d):
+            ops.append({"op": "tpn", "R": R, "fst": d, "n": ml * ns + 1, "pairs": pairs})
+            deepflags.append(False)
+        else:
+            ops.append({"op": "tpn", "R": "F64", "fst": d, "n": 80, "pairs": pairs})
+            deepflags.append(True)
+    res = ctx["lean"](ops)
+    out = []
+    for r, deep in zip(res, deepflags):
+        if "error" in r:
+            raise common.DriverError(r["error"])
+        vals = [common.dec_float(v) for v in r["vals"]]
+        half = [common.dec_float(v) for v in r["half"]]
+        conv = [(not deep) or common.close(o, h, 1e-11, 1e-15) for o, h in zip(vals, half)]
+        out.append((vals, conv, deep))
+    return out
